@@ -191,7 +191,7 @@ def run(ctx, info):
     #     package changed since the pinned tree (thorough: all 84, once) - strict as the census: a failure part-way is a violation, keyed as above
     from .. import hot
     changed = hot.changed_sources(info)
-    hjobs = [j for j in hot.jobs(ctx, changed if ctx.quick else sorted(set(names) | set(changed)), reps=(3 if ctx.quick else 1))
+    hjobs = [j for j in hot.jobs(ctx, changed if ctx.quick else sorted(set(names) | set(changed)), reps=(3 if ctx.quick else 1), grid_for=set(changed))
              if j["family"] not in ("hot:onemax", "hot:perm", "hot:small-discrete")]           # continuous tasks only: integer-coded ones are judged per pair against the baseline (5.)
     if hjobs:
         hobs = search.run_jobs(hjobs, procs=16)
